@@ -91,7 +91,10 @@ Lemma srel_of_fields a b :
   h_since a = h_since b -> h_ds a = h_ds b -> h_cur a = h_cur b -> h_feps a = h_feps b -> h_finfo a = h_finfo b ->
   h_dists a = h_dists b -> h_epsv a = h_epsv b -> h_cur_now a = h_cur_now b -> h_eps_now a = h_eps_now b ->
   h_hists a = h_hists b -> srel a b.
-Proof. intros. unfold srel, hfb. congruence. Qed.
+Proof.
+  intros H1 H2 H3 H4 H5 H6 H7 H8 H9 H10 H11 H12 H13 H14 H15 H16 H17 H18 H19. unfold srel, hfb.
+  rewrite H1, H2, H3, H4, H5, H6, H7, H8, H9, H10, H11, H12, H13, H14, H15, H16, H17, H18, H19. reflexivity.
+Qed.
 
 (** the observation without the threshold computed by the call *)
 Definition obs_nb (o : @hobs N) : @hobs N :=
@@ -128,7 +131,7 @@ Proof.
     unfold thr_tot, thr_eps. rewrite same_db. reflexivity. }
   assert (Mb : c_has_beta p1 a = true ->
                fleb (c_beta trunc sq dist tppf1 p1 a X bt) (c_beta trunc sq dist tppf2 p2 b X bt) = true).
-  { intros Hb. unfold c_beta, c_at. rewrite Eeb, Es, Et, H5, H6, H2. apply beta_monotone, Hd, Hb. }
+  { intros Hb. unfold c_beta, c_at. rewrite Eeb, Es, Et, <- H5, <- H6, <- H2. apply beta_monotone, Hd, Hb. }
   destruct (c_drift trunc sq dist tppf1 p1 a X bt) eqn:D1.
   - left. rewrite core_ds, D1. reflexivity.
   - right.
@@ -171,7 +174,7 @@ Qed.
 Lemma denominator_pos a : hinv p1 a -> h_ds a <> DDrift -> c_has_beta p1 a = true ->
   1 <= thr_d p1 (c_since a) (c_total a - h_lambda a).
 Proof.
-  intros Hi Hnd Hb. unfold c_since, c_total. rewrite (dscale_since p1 a Hi Hnd).
+  intros Hi Hnd Hb. rewrite (dscale_since p1 a Hi Hnd).
   rewrite has_beta_gate in Hb. unfold c_since, gate in Hb. destruct Hi as (Hs & _).
   unfold boot_phase. destruct (h_db p1 =? 3) eqn:E3; destruct (h_since a + 1 =? 2) eqn:E2; simpl; lia.
 Qed.
@@ -250,7 +253,7 @@ Proof.
   assert (Eeb : c_eps_b trunc dist p2 b X bt = c_eps_b trunc dist p1 a X bt)
     by (unfold c_eps_b, boot_phase, c_since; rewrite H10, H4, Ec, same_db; reflexivity).
   assert (M : fleb (c_beta trunc sq dist tppf1 p1 a X bt) (c_beta trunc sq dist tppf2 p2 b X bt) = true).
-  { unfold c_beta, c_at, c_since, c_total. rewrite Eeb, H5, H10, H9, H6, H2. apply beta_monotone.
+  { unfold c_beta, c_at, c_since, c_total. rewrite Eeb, <- H5, <- H10, <- H9, <- H6, <- H2. apply beta_monotone.
     apply (denominator_pos a Hi Hnd Hb). }
   split; [exact M|]. rewrite Ec. intros H. exact (fle_lt_trans OL _ _ _ M H).
 Qed.
